@@ -2,12 +2,14 @@
 //! session overlay (C13/C14).
 mod facts;
 mod queue;
+mod session;
 
 fn main() {
     let args = vrt::Args::parse();
     match args.sub.as_str() {
         "queue" => queue::run(&args),
         "facts" => facts::run(&args),
+        "session" => session::run(&args),
         s => vrt::die(&format!("unknown subcommand {s}")),
     }
 }
